@@ -55,6 +55,7 @@ pub fn scenarios(prop: &str, tier: Tier) -> Vec<ScenarioDef> {
         "C20" => crate::c20::scenarios(tier),
         "C08" => crate::c08::scenarios(tier),
         "C05" => crate::c05::scenarios(tier),
+        "C06" => crate::c06e1::scenarios(tier),
         "C16" => crate::c16::scenarios(tier),
         _ => Vec::new(),
     }
@@ -64,6 +65,7 @@ pub fn seq_configs(prop: &str, tier: Tier) -> Vec<crate::seqx::Config> {
     match prop {
         "C10" => crate::c10::configs(tier),
         "C08" => crate::c08::configs(tier),
+        "C13" => crate::c13::configs(tier),
         "C05" => crate::c05core::configs(tier == Tier::Thorough),
         "C16" => crate::c16::configs(tier),
         _ => Vec::new(),
